@@ -137,6 +137,24 @@ def order_histories(env, rec, seen):
     return out
 
 
+def prepared_fixed_point(rec, x):
+    o = rec.get("opts", {})
+    for n, K, a in S.attr_table(rec):
+        if n not in vars(x):
+            continue
+        v = vars(x)[n]
+        try:
+            if n in o.get("preparers", []) and not values_equal(G.PREPARERS[a["kind"]](copy.deepcopy(v)), v):
+                return False
+            if n in o.get("item_preparers", []) and a["kind"] in G.ITEM_PREPARERS:
+                items = list(v.values()) if isinstance(v, dict) else list(v)
+                if any(not values_equal(G.ITEM_PREPARERS[a["kind"]](copy.deepcopy(i)), i) for i in items):
+                    return False
+        except Exception:
+            return False
+    return True
+
+
 def check_pool(C, rec, label, insts, hists, classes_md):
     n = len(insts)
 
@@ -210,6 +228,11 @@ def check_pool(C, rec, label, insts, hists, classes_md):
         noninit_default = all((nm in vars(x)) == (nm in vars(type(x)(**{k: v for k, v in kw.items() if k == md.key}))) for nm, a in md.attrs.items() if not a.init) if any(not a.init for a in md.attrs.values()) else True
         if md.key and md.key not in vars(x):
             continue  # a keyed instance whose key was deleted cannot be rebuilt through the constructor
+        if not prepared_fixed_point(rec, x):
+            # transform_<singular> stores f(old) as it is (C06), so a stored element need not be a fixed point of the
+            # user's item preparer; the constructor then (rightly) prepares it and the rebuilt instance differs
+            C.inc("reconstruction_skipped_not_a_preparer_fixed_point")
+            continue
         try:
             y = type(x)(**kw)
             if noninit_default and not (y == x):
